@@ -275,7 +275,21 @@ pub fn random(args: &Args) {
                     pending.push((now + delay, ipv4_packet(dst_ip, [10, 0, 0, 1], 17, 1, 64, &udp_datagram(53, *sport, &m), true)));
                 } else {
                     // hostile variants: each must NOT complete the query with an address
-                    let v = rng.below(18);
+                    let v = rng.below(19);
+                    if v == 18 {
+                        // two steps: a response for the right question whose first record is a CNAME to a foreign name and whose
+                        // second record is cut short, then a response that repeats the CNAME target (not the query's name) as its
+                        // question and carries an address for it -- the query's question is still the original one
+                        let target = "alias.evil.net".to_string();
+                        let mut m1 = dns_msg(id, 0x8180, &name, qt, 1, &[Rr { name: name.clone(), ptr: true, ty: 5, a: [0; 4], cname: target.clone() },
+                                                                          Rr { name: target.clone(), ptr: false, ty: 1, a: [66, 66, 66, 66], cname: String::new() }], None, 0);
+                        let l = m1.len();
+                        m1.truncate(l - 3);
+                        let m2 = dns_msg(id, 0x8180, &target, qt, 1, &[Rr { name: target.clone(), ptr: true, ty: 1, a: [66, 66, 66, 66], cname: String::new() }], None, 0);
+                        pending.push((now + delay, ipv4_packet(dst_ip, [10, 0, 0, 1], 17, 1, 64, &udp_datagram(53, *sport, &m1), true)));
+                        pending.push((now + delay + rng.range(1, 50) as i64, ipv4_packet(dst_ip, [10, 0, 0, 1], 17, 1, 64, &udp_datagram(53, *sport, &m2), true)));
+                        continue;
+                    }
                     let good = vec![Rr { name: name.clone(), ptr: true, ty: 1, a: [66, 66, 66, 66], cname: String::new() }];
                     let (mid, mflags, mname, mqt, qd, rrs, trunc, evil, src, sp, dp): (u16, u16, String, u16, u16, Vec<Rr>, Option<usize>, u8, [u8; 4], u16, u16) = match v {
                         0 => (id ^ 1, 0x8180, name.clone(), qt, 1, good, None, 0, dst_ip, 53, *sport),                 // wrong transaction id
